@@ -33,7 +33,7 @@ from pathlib import Path
 from harness.translate import c01_dispatch, c01_tables
 
 ID = "C01"
-LEVEL_TEXT = ("27 theorems (all closed under the global context) about a Gallina model of the static visitor, for ALL statement lists of an abstract "
+LEVEL_TEXT = ("29 theorems (all closed under the global context) about a Gallina model of the static visitor, for ALL statement lists of an abstract "
               "statement language (def/class/assign/annassign/__all__ +=/import/from-import/if/block/handler/docstring statement; any nesting, any "
               "duplication): (1) the stack-and-flag visitor machine (frame stack = Visitor.current, mutable type_guarded saved/restored by visit_if, "
               "events, Python errors) computes exactly a recursive level semantics in which the type-guard flag is an inherited attribute true only "
@@ -55,7 +55,8 @@ LEVEL_TEXT = ("27 theorems (all closed under the global context) about a Gallina
               "exports list. (6) Source text: for every layout tree (gap / decorator / header / "
               "continuation / parenthesis lines, any nesting) slicing the rendered lines by a reported span returns exactly the item's text "
               "(function/class from the first decorator line, property-attribute from the def line, docstring = the string constant's lines), and "
-              "every member's reported span is the span of an item defining that very name with that kind. (7) The visibility ladders regenerated "
+              "every member's reported span is the span of an item defining that very name with that kind; Object.lines is that text and "
+              "Object.source its dedent, which removes nothing but a common margin of blanks. (7) The visibility ladders regenerated "
               "from mixins.py equal the documented table on all 15360 inputs. Findings F1-F5, F7 repaired; F6 (overload-only names have no member) "
               "stays known with a computed witness. Model tied to the code on every run: two translators (fail closed), differential runs on "
               "generated modules (tree incl. function-object members, spans, labels, docstring spans, flags, imports, exports, event trace; "
